@@ -39,4 +39,195 @@ theorem readQ_mid : ∀ (n j : Nat) (q rest acc : List Nat), q.length = n → 8 
       | some v =>
         simp only []
         rw [ih (j + 1) q' rest (acc ++ [v]) hq' hr]
-        simp [isSym, hs, List.filterMap_cons]
+        simp [isSym, hs]
+
+theorem isSym_ne_pad (c : Nat) (h : isSym c = true) : c ≠ PAD := by
+  intro hc; subst hc; simp [isSym, sym_pad] at h
+
+def okLen (n : Nat) : Bool := n == 2 || n == 4 || n == 5 || n == 7 || n == 8
+
+theorem pack_isSome (d : List Nat) : (pack d).isSome = okLen d.length := by
+  rcases d with _ | ⟨a0, _ | ⟨a1, _ | ⟨a2, _ | ⟨a3, _ | ⟨a4, _ | ⟨a5, _ | ⟨a6, _ | ⟨a7, _ | ⟨a8, r⟩⟩⟩⟩⟩⟩⟩⟩⟩ <;>
+    simp [pack, okLen]
+
+/-- the inner loop on the last quantum (exactly `n = 8 - j` characters left) -/
+theorem readQ_lastq : ∀ (n j : Nat) (q acc : List Nat), q.length = n → j + n = 8 →
+    readQ n j q acc =
+      (if q.dropWhile isSym = [] then some (acc ++ (q.takeWhile isSym).filterMap sym, [], false)
+       else if (q.dropWhile isSym).all (· == PAD) ∧ 2 ≤ j + (q.takeWhile isSym).length ∧
+               j + (q.takeWhile isSym).length ≠ 3 ∧ j + (q.takeWhile isSym).length ≠ 6
+            then some (acc ++ (q.takeWhile isSym).filterMap sym, (q.dropWhile isSym).tail, true) else none) := by
+  intro n
+  induction n with
+  | zero =>
+    intro j q acc hq _
+    have : q = [] := List.eq_nil_of_length_eq_zero hq
+    subst this; simp [readQ]
+  | succ n ih =>
+    intro j q acc hq hj
+    match q, hq with
+    | c :: q', hq =>
+      have hq' : q'.length = n := by simpa using hq
+      cases hs : sym c with
+      | some v =>
+        have hS : isSym c = true := by simp [isSym, hs]
+        have hne := isSym_ne_pad c hS
+        simp only [readQ, hs]
+        rw [if_neg (by intro h; exact hne h.1)]
+        rw [ih (j + 1) q' (acc ++ [v]) hq' (by omega)]
+        simp only [List.takeWhile_cons, List.dropWhile_cons, hS, if_true, List.filterMap_cons, hs, List.length_cons,
+          List.append_assoc, List.singleton_append]
+        have e : j + 1 + (List.takeWhile isSym q').length = j + ((List.takeWhile isSym q').length + 1) := by omega
+        rw [e]
+      | none =>
+        have hS : isSym c = false := by simp [isSym, hs]
+        simp only [readQ, hs, List.takeWhile_cons, List.dropWhile_cons, hS, List.tail_cons, List.all_cons]
+        by_cases hp : c = PAD
+        · subst hp
+          by_cases hj2 : 2 ≤ j
+          · rw [if_pos ⟨rfl, hj2, by omega⟩]
+            rw [if_neg (by omega)]
+            have ht : List.take (7 - j) q' = q' := List.take_of_length_le (by omega)
+            rw [ht]
+            by_cases hall : q'.all (fun x => decide (x = PAD)) = true
+            · have hall' : q'.all (fun x => x == PAD) = true := by simpa using hall
+              simp [hall, hall', hj2]
+              by_cases h3 : j = 3
+              · simp [h3]
+              · by_cases h6 : j = 6
+                · simp [h6]
+                · have : ¬ (j = 1 ∨ j = 3 ∨ j = 6) := by omega
+                  simp [this, h3, h6]; omega
+            · have hall' : ¬ (q'.all (fun x => x == PAD) = true) := by simpa using hall
+              simp [hall, hall']
+          · rw [if_neg (by intro h; exact hj2 h.2.1)]
+            simp [hj2]
+        · rw [if_neg (by intro h; exact hp h.1)]
+          simp [hp]
+
+theorem takeWhile_length_add (q : List Nat) : (q.takeWhile isSym).length + (q.dropWhile isSym).length = q.length := by
+  rw [← List.length_append, List.takeWhile_append_dropWhile]
+
+theorem filterMap_sym_length (d : List Nat) (h : ∀ c ∈ d, isSym c = true) : (d.filterMap sym).length = d.length := by
+  induction d with
+  | nil => rfl
+  | cons c d ih =>
+    have hc := h c (by simp)
+    simp only [isSym, Option.isSome_iff_exists] at hc
+    obtain ⟨v, hv⟩ := hc
+    simp [hv, ih (fun x hx => h x (by simp [hx]))]
+
+theorem decodeLoop_last (c : Nat) (q' : List Nat) (hq : (c :: q').length = 8) (f : Nat) :
+    (decodeLoop (f + 2) (c :: q')).isSome = accShape (c :: q') := by
+  have hd := takeWhile_length_add (c :: q')
+  have hfl := filterMap_sym_length ((c :: q').takeWhile isSym) (fun x hx => List.all_eq_true.mp List.all_takeWhile x hx)
+  unfold accShape
+  rw [decodeLoop]
+  simp only []
+  rw [readQ_lastq 8 0 (c :: q') [] hq (by omega)]
+  simp only [List.nil_append, Nat.zero_add]
+  by_cases hp : (c :: q').dropWhile isSym = []
+  · rw [if_pos hp]
+    simp only [hp, List.length_nil, Nat.add_zero] at hd ⊢
+    have : (pack (List.filterMap sym (List.takeWhile isSym (c :: q')))).isSome = true := by
+      rw [pack_isSome]; simp [hfl, hd, hq, okLen]
+    obtain ⟨bytes, hb⟩ := Option.isSome_iff_exists.mp this
+    simp [hb, decodeLoop]
+  · rw [if_neg hp]
+    have hpl : 1 ≤ ((c :: q').dropWhile isSym).length := by
+      cases h : (c :: q').dropWhile isSym with
+      | nil => exact absurd h hp
+      | cons _ _ => simp
+    by_cases hc : ((c :: q').dropWhile isSym).all (· == PAD) ∧ 2 ≤ ((c :: q').takeWhile isSym).length ∧
+             ((c :: q').takeWhile isSym).length ≠ 3 ∧ ((c :: q').takeWhile isSym).length ≠ 6
+    · rw [if_pos hc]
+      have : (pack (List.filterMap sym (List.takeWhile isSym (c :: q')))).isSome = true := by
+        rw [pack_isSome]; simp only [hfl, okLen]
+        simp only [Bool.or_eq_true, beq_iff_eq]; omega
+      obtain ⟨bytes, hb⟩ := Option.isSome_iff_exists.mp this
+      simp only [hb, if_true, Option.isSome_some]
+      rw [hc.1]
+      simp only [Bool.true_and, Bool.or_eq_true, beq_iff_eq]
+      symm
+      simp only [Bool.or_eq_true, beq_iff_eq]
+      have hq8 : (c :: q').length = 8 := hq
+      omega
+    · rw [if_neg hc]
+      simp only [Option.isSome_none]
+      symm
+      cases hall : ((c :: q').dropWhile isSym).all (· == PAD) with
+      | false => simp
+      | true =>
+        simp only [Bool.true_and, Bool.or_eq_false_iff, beq_eq_false_iff_ne]
+        have : ¬ (2 ≤ ((c :: q').takeWhile isSym).length ∧
+             ((c :: q').takeWhile isSym).length ≠ 3 ∧ ((c :: q').takeWhile isSym).length ≠ 6) := fun h => hc ⟨hall, h⟩
+        omega
+  · intro h; cases h
+
+theorem dropWhile_append_all (q rest : List Nat) (h : q.all isSym = true) :
+    (q ++ rest).dropWhile isSym = rest.dropWhile isSym := by
+  induction q with
+  | nil => rfl
+  | cons c q ih =>
+    simp only [List.all_cons, Bool.and_eq_true] at h
+    simp only [List.cons_append, List.dropWhile_cons, h.1, if_true]
+    exact ih h.2
+
+theorem dropWhile_append_notall (q rest : List Nat) (h : q.all isSym = false) :
+    rest.length + 1 ≤ ((q ++ rest).dropWhile isSym).length := by
+  induction q with
+  | nil => simp at h
+  | cons c q ih =>
+    simp only [List.cons_append, List.dropWhile_cons]
+    cases hc : isSym c with
+    | true =>
+      simp only [if_true]
+      simp only [List.all_cons, hc, Bool.true_and] at h
+      exact ih h
+    | false => simp
+
+/-- on inputs of 8k characters the decoder model accepts exactly the texts of the shape `accShape` -/
+theorem decodeLoop_isSome : ∀ (fuel : Nat) (s : List Nat), s.length % 8 = 0 → s.length / 8 + 2 ≤ fuel →
+    (decodeLoop fuel s).isSome = accShape s := by
+  intro fuel
+  induction fuel with
+  | zero => intro s _ hf; omega
+  | succ fuel ih =>
+    intro s h8 hf
+    match s with
+    | [] => simp [decodeLoop, accShape]
+    | c :: s' =>
+      by_cases hl : (c :: s').length = 8
+      · obtain ⟨f, rfl⟩ : ∃ f, fuel = f + 1 := ⟨fuel - 1, by rw [hl] at hf; omega⟩
+        exact decodeLoop_last c s' hl f
+      · have hlen : 16 ≤ (c :: s').length := by
+          have : 1 ≤ (c :: s').length := by simp
+          omega
+        have hsplit : c :: s' = (c :: s').take 8 ++ (c :: s').drop 8 := (List.take_append_drop 8 _).symm
+        have hq : ((c :: s').take 8).length = 8 := by rw [List.length_take]; omega
+        have hr : 8 ≤ ((c :: s').drop 8).length := by rw [List.length_drop]; omega
+        have hr8 : ((c :: s').drop 8).length % 8 = 0 := by rw [List.length_drop]; omega
+        have hrf : ((c :: s').drop 8).length / 8 + 2 ≤ fuel := by rw [List.length_drop]; omega
+        rw [decodeLoop]
+        · rw [hsplit, readQ_mid 8 0 _ _ [] hq hr]
+          cases hall : ((c :: s').take 8).all isSym with
+          | true =>
+            simp only [if_true, List.nil_append]
+            have hfl := filterMap_sym_length ((c :: s').take 8) (fun x hx => List.all_eq_true.mp hall x hx)
+            have : (pack (List.filterMap sym ((c :: s').take 8))).isSome = true := by
+              rw [pack_isSome, hfl, hq]; rfl
+            obtain ⟨bytes, hb⟩ := Option.isSome_iff_exists.mp this
+            simp only [hb, Bool.false_eq_true, if_false, Option.isSome_map]
+            rw [ih _ hr8 hrf]
+            unfold accShape
+            rw [dropWhile_append_all _ _ hall]
+          | false =>
+            simp only [Bool.false_eq_true, if_false, Option.isSome_none]
+            have := dropWhile_append_notall _ ((c :: s').drop 8) hall
+            unfold accShape
+            symm
+            simp only [Bool.and_eq_false_iff, Bool.or_eq_false_iff, beq_eq_false_iff_ne]
+            right; omega
+        · intro h; cases h
+
+end OtpVerif.Lemmas.B32
